@@ -706,6 +706,40 @@ def gpt_family(rng, quick):
                          images.gpt(ptes=ptes, total=rng.choice([512, 513, 1024]),
                                     code_fill=rng.choice([0, 0, 0x90, 0xff])),
                          gpt_expect(tags)))
+    # the protective entry must start at CHS exactly (head 0, sector byte 2, cylinder byte 0) and LBA exactly 1:
+    # every other value of each CHS byte with the other two correct (3 x 255), pairs / triples of deviating
+    # bytes, every single-bit flip of the start LBA and other values of each of its bytes
+    def prot(label, chs, lba, expect):
+        boot = rng.choice([0, 0, 0x80])
+        it = _item('gpt', 'gpt/protective-' + label,
+                   images.gpt(ptes=[images.pte(boot=boot, ostype=0xEE, chs=chs, lba=lba, size=rng.choice([1, 0xffffffff]))],
+                              total=rng.choice([512, 1024])), expect)
+        it['maxk'] = 2
+        out.append(it)
+    good = (0, 2, 0)
+    prot('chs-000200-lba-1', good, 1, 'clean')
+    for pos in range(3):
+        for v in range(256):
+            if v != good[pos]:
+                chs = list(good)
+                chs[pos] = v
+                prot('chs-%02x%02x%02x' % tuple(chs), tuple(chs), 1, 'unsafe')
+    for _ in range(60 if quick else 3000):
+        chs = [rng.choice([good[p], rng.randrange(256), 1 << rng.randrange(8), good[p] ^ (1 << rng.randrange(8))])
+               for p in range(3)]
+        if tuple(chs) != good:
+            prot('chs-%02x%02x%02x' % tuple(chs), tuple(chs), 1, 'unsafe')
+    for bit in range(32):
+        prot('lba-%08x' % (1 ^ (1 << bit)), good, 1 ^ (1 << bit), 'unsafe')
+    for pos in range(4):
+        for v in (range(256) if not quick else rng.sample(range(256), 24)):
+            lba = (1 & ~(0xff << (8 * pos))) | (v << (8 * pos))
+            if lba != 1:
+                prot('lba-%08x' % lba, good, lba, 'unsafe')
+    for _ in range(10 if quick else 300):
+        lba = rng.getrandbits(32)
+        if lba != 1:
+            prot('chs-ok-lba-%08x' % lba, good, lba, 'unsafe')
     out.append(_item('gpt', 'gpt/bad-signature', images.gpt(signature=0xAA54), 'unsafe', cli='free'))
     out.append(_item('gpt', 'gpt/fat-lookalike', images.gpt(fat=True), 'unsafe', cli='free'))
     out += _truncs(_item('gpt', 'gpt/clean', images.gpt(total=1024), 'clean'), 512, rng)
@@ -916,6 +950,8 @@ def pick_chunkings(item, rng, k):
     if item['f1']:
         head = f1_chunkings(item)
         return head + rng.sample(alls, min(len(alls), max(1, k - len(head))))
+    if item.get('maxk'):
+        k = min(k, item['maxk'])
     first = [alls[0]]
     rest = alls[1:]
     if big:
